@@ -270,7 +270,9 @@ fn expand_chunk(factory: Factory, nodes: &[Node], expand: bool, want_samples: us
                     let fp = m.fingerprint().map(|s| fp_hash(&s));
                     let mut h = node.hist.clone();
                     h.push(op);
-                    if out.samples.len() < want_samples && h.len() >= 2 {
+                    // sample a history from the far end of the chunk (more varied than the first child)
+                    if want_samples > 0 && h.len() >= 2 && std::ptr::eq(node, nodes.last().unwrap()) {
+                        out.samples.clear();
                         let mut descs = Vec::new();
                         // cheap: only describe, by replaying
                         let _ = replay(m.as_mut(), &h, Some(&mut descs));
